@@ -25,6 +25,10 @@ import (
 // C15: Shutdown is graceful. A real Server (rewritten by mcgen) serves an InmemoryListener; one or two scripted client
 // connections (idle keep-alive / slow handler / pipelined pair / request arriving on an idle connection while
 // Shutdown runs) race with a thread calling ShutdownWithContext. Every schedule up to the deviation bound is executed.
+// The handler dimension: plain, slow (waits for Done), nap, and the two ways a response leaves through a swapped
+// RequestCtx - ctx.TimeoutError (/te*) and TimeoutHandler whose inner handler is abandoned (/th*) - so that every way
+// a connection becomes idle (fresh, after a normal response, after a flushed pipeline, after a timeout response served
+// from a fresh ctx) is part of the histories.
 //
 // What the oracle asks (properties.jsonl C15, nothing more): when Shutdown returned nil -> listener closed, Serve
 // returned, no handler running, every request whose handler STARTED has its complete response on the client side
@@ -85,6 +89,7 @@ type c15conn struct {
 	done     bool
 	opened   bool // the opening steps of the script are done
 	sent     []string
+	atEOF    bool // the client has nothing more to send: it only waits for the server to close the connection
 }
 
 type c15obs struct {
@@ -93,10 +98,14 @@ type c15obs struct {
 	startedLate      []string // ... of which after Shutdown was called
 	running          int
 	waitingDone      int
+	abandoned        int // inner handlers of TimeoutHandler that are (still) running; the property exempts them once abandoned
+	abandonedAtRet   int
 	shutdownCalled   bool
 	shutdownReturned bool
 	shutdownErr      error
 	runningAtReturn  int
+	idleAtReturn     []int // c15idleConns at the moment Shutdown returned
+	busyAtReturn     int
 	serveAtReturn    bool
 	serveReturned    bool
 	serveErr         error
@@ -153,6 +162,40 @@ func c15responses(buf []byte) (out [][2]string, rest []byte) {
 	}
 }
 
+const c15timeoutMsg = "too slow"
+
+// c15wantOK: is (status, body) a response the client may see for a request path? A TimeoutHandler request is answered
+// with 408 or - when the wrapper thread is scheduled so late that the inner handler finishes before the timeout is armed,
+// which is scheduling slack - by the inner handler itself.
+func c15wantOK(p, st, body string) (bool, string) {
+	switch {
+	case strings.HasPrefix(p, "/te"):
+		return st == "408" && body == c15timeoutMsg, "408 " + strconv.Quote(c15timeoutMsg)
+	case strings.HasPrefix(p, "/th"):
+		return st == "408" && body == c15timeoutMsg || st == "200" && body == "late:"+p, "408 " + strconv.Quote(c15timeoutMsg) + " (or 200 \"late:" + p + "\" if the inner handler won)"
+	}
+	return st == "200" && body == "ok:"+p, "200 " + strconv.Quote("ok:"+p)
+}
+
+// c15idleConns: connections that are idle keep-alive connections from the client's point of view - still open, at
+// least one request sent, every request sent has its complete response, and the client will not send anything more
+// (it only waits for the server to close). busy = connections that are open and not (yet) in that state.
+func c15idleConns(o *c15obs) (idle []int, busy int) {
+	for ci, cc := range o.conns {
+		// (not cc.done: the deferred function that sets it also runs when a stuck execution is torn down)
+		if cc.eof || cc.dialErr != "" {
+			continue
+		}
+		rs, rest := c15responses(cc.buf)
+		if cc.atEOF && len(cc.sent) > 0 && len(rs) == len(cc.sent) && len(rest) == 0 {
+			idle = append(idle, ci)
+		} else {
+			busy++
+		}
+	}
+	return idle, busy
+}
+
 func c15has(l []string, s string) bool {
 	for _, x := range l {
 		if x == s {
@@ -169,6 +212,11 @@ func c15body(sc c15scn) func() {
 		if sc.wcap0 {
 			workerChanCap = 0
 		}
+		// Responses served from a swapped RequestCtx (TimeoutError/TimeoutHandler) carry a Date header (NoDefaultDate is
+		// only applied to the connection's first ctx), and the first Date header starts the process-wide once-a-second
+		// date refresher goroutine. That goroutine has nothing to do with Shutdown and its ever-pending 1s timer multiplies
+		// the timer-first alternatives: consume the Once with a single refresh instead.
+		serverDateOnce.Do(refreshServerDate)
 		o := &c15obs{}
 		mcrt.SetUserData(o)
 		for range sc.scripts {
@@ -178,6 +226,15 @@ func c15body(sc c15scn) func() {
 			NoDefaultDate: true, NoDefaultServerHeader: true, Logger: c15nopLogger{}, Concurrency: 8,
 			MaxConnsPerIP: sc.perIP, CloseOnShutdown: sc.closeOnSD, IdleTimeout: sc.idleTO,
 		}
+		th := TimeoutHandler(func(ctx *RequestCtx) {
+			p := string(ctx.Path())
+			o.abandoned++
+			o.ev("inner handler start %s", p)
+			mtime.Sleep(300 * time.Millisecond)
+			ctx.SetBodyString("late:" + p) // reaches the client only if the timeout has not fired by now
+			o.abandoned--
+			o.ev("inner handler end %s", p)
+		}, 50*time.Millisecond, c15timeoutMsg)
 		s.Handler = func(ctx *RequestCtx) {
 			p := string(ctx.Path())
 			if strings.HasPrefix(p, "/c1") { // first Serve/Shutdown cycle of a re-used Server: not what the oracle judges
@@ -204,6 +261,19 @@ func c15body(sc c15scn) func() {
 				mtime.Sleep(150 * time.Millisecond)
 			case strings.HasPrefix(p, "/nap"):
 				mtime.Sleep(50 * time.Millisecond)
+			case strings.HasPrefix(p, "/te"):
+				// the response leaves through ctx.TimeoutError: the serve loop answers from (and goes on with) a fresh RequestCtx
+				ctx.TimeoutError(c15timeoutMsg)
+				mcrt.Covered("response-through-timeout-error")
+				o.running--
+				o.ev("handler end %s (TimeoutError)", p)
+				return
+			case strings.HasPrefix(p, "/th"):
+				// TimeoutHandler(50ms) around an inner handler that needs 300ms: the wrapper answers 408 and abandons the inner one
+				th(ctx)
+				o.running--
+				o.ev("handler end %s (TimeoutHandler)", p)
+				return
 			}
 			ctx.SetBodyString("ok:" + p)
 			o.running--
@@ -315,6 +385,7 @@ func c15body(sc c15scn) func() {
 						mcrt.WaitUntil("shutdown-called", func() bool { return o.shutdownCalled })
 					case 'e':
 						cc.opened = true
+						cc.atEOF = true
 						rd(func() bool { return false })
 					}
 				}
@@ -356,6 +427,11 @@ func c15body(sc c15scn) func() {
 		o.blockedUntil = mcrt.BlockedUntil()
 		o.ev("shutdown returned %v", err)
 		o.runningAtReturn = o.running
+		o.abandonedAtRet = o.abandoned
+		o.idleAtReturn, o.busyAtReturn = c15idleConns(o)
+		if o.abandoned > 0 && err == nil {
+			mcrt.Covered("shutdown-returned-while-abandoned-inner-handler-running")
+		}
 		o.serveAtReturn = o.serveReturned
 		o.shutdownReturned = true
 		if o.shutdownErr != nil {
@@ -367,6 +443,7 @@ func c15body(sc c15scn) func() {
 			c.Close()
 		}
 		mcrt.WaitUntil("clients-done", func() bool { return o.clientsDone == len(sc.scripts) })
+		mcrt.WaitUntil("abandoned-handlers-done", func() bool { return o.abandoned == 0 })
 	}
 }
 
@@ -391,6 +468,10 @@ func c15check(sc c15scn) func(x *mcrt.Exec) (string, string, string) {
 							return fmt.Sprintf("pipelined-request-%d-of-%d", i+1, len(st.paths))
 						case strings.HasPrefix(p, "/slow"):
 							return "slow-handler-request"
+						case strings.HasPrefix(p, "/te"):
+							return "request-answered-through-timeout-error"
+						case strings.HasPrefix(p, "/th"):
+							return "request-answered-by-timeouthandler"
 						}
 						return "plain-request"
 					}
@@ -398,6 +479,18 @@ func c15check(sc c15scn) func(x *mcrt.Exec) (string, string, string) {
 			}
 		}
 		return "unknown-request"
+	}
+	// how the idle connections got idle: the role of the last request answered on each of them
+	idleHow := func(o *c15obs, idle []int) string {
+		var l []string
+		for _, ci := range idle {
+			cc := o.conns[ci]
+			h := "last-answered=" + role(cc.sent[len(cc.sent)-1])
+			if !c15has(l, h) {
+				l = append(l, h)
+			}
+		}
+		return strings.Join(l, ",")
 	}
 	return func(x *mcrt.Exec) (string, string, string) {
 		o, _ := x.UserData.(*c15obs)
@@ -421,6 +514,9 @@ func c15check(sc c15scn) func(x *mcrt.Exec) (string, string, string) {
 					return "stuck", "done-not-closed-during-shutdown-of-reused-server", "second Serve/Shutdown cycle on the same Server: a handler waiting on ctx.Done() was never woken although Shutdown is in progress (Done is not re-armed after the first cycle)"
 				}
 				return "stuck", "done-not-closed-during-shutdown", "a handler waiting on ctx.Done() was never woken although Shutdown is in progress"
+			case o.shutdownCalled && !o.shutdownReturned && o.running == 0 && c15idleOnly(o):
+				idle, _ := c15idleConns(o)
+				return "stuck", "shutdown-never-closes-idle-conn[" + idleHow(o, idle) + "]", fmt.Sprintf("Shutdown(background ctx) keeps polling although no handler is running and the only open connection(s) %v are idle keep-alive connections (every request answered, client silent): it waits for them instead of closing them; events: %s", idle, strings.Join(o.log, " / "))
 			case o.shutdownCalled && !o.shutdownReturned:
 				return "stuck", "shutdown-never-returns", fmt.Sprintf("Shutdown(background ctx) keeps polling: running handlers=%d; %s", o.running, strings.Join(x.Out.Blocked, "; "))
 			case o.shutdownReturned && o.shutdownErr == nil && o.clientsDone < len(sc.scripts):
@@ -435,7 +531,14 @@ func c15check(sc c15scn) func(x *mcrt.Exec) (string, string, string) {
 			return "note", "done-closed-early", o.notes[0]
 		}
 		if o.shutdownErr != nil {
-			return fmt.Sprintf("shutdown-err=%v started=%d", o.shutdownErr, len(o.started)), "", ""
+			cls := fmt.Sprintf("shutdown-err=%v started=%d", o.shutdownErr, len(o.started))
+			// "idle keep-alive connections are closed rather than waited for" does not depend on the result: a Shutdown that
+			// runs into its deadline (>= 1s, ten sweeps) while no handler runs and nothing but idle keep-alive connections
+			// is open has waited for them. (Deviation-free executions only: a timer-first deviation is scheduling slack.)
+			if x.Cost == 0 && sc.ctxTimeout >= time.Second && o.runningAtReturn == 0 && o.busyAtReturn == 0 && len(o.idleAtReturn) > 0 {
+				return cls, "shutdown-deadline-hit-waiting-for-idle-conn[" + idleHow(o, o.idleAtReturn) + "]", fmt.Sprintf("ShutdownWithContext(%v) returned %v although no handler was running and the only open connection(s) %v were idle keep-alive connections: it waited for them instead of closing them; events: %s", sc.ctxTimeout, o.shutdownErr, o.idleAtReturn, strings.Join(o.log, " / "))
+			}
+			return cls, "", ""
 		}
 		cls := fmt.Sprintf("nil started=%v late=%d", o.started, len(o.startedLate))
 		if !o.serveAtReturn {
@@ -467,8 +570,8 @@ func c15check(sc c15scn) func(x *mcrt.Exec) (string, string, string) {
 				if i >= len(cc.sent) {
 					return cls, "unsolicited-response", fmt.Sprintf("conn %d got %d responses for %d requests", ci, len(rs), len(cc.sent))
 				}
-				if r[0] != "200" || r[1] != "ok:"+cc.sent[i] {
-					return cls, "wrong-response-during-shutdown", fmt.Sprintf("conn %d response %d is %q %q, want 200 for %s", ci, i, r[0], r[1], cc.sent[i])
+				if ok, want := c15wantOK(cc.sent[i], r[0], r[1]); !ok {
+					return cls, "wrong-response-during-shutdown", fmt.Sprintf("conn %d response %d is %q %q, want %s for %s", ci, i, r[0], r[1], want, cc.sent[i])
 				}
 				got[cc.sent[i]] = true
 			}
@@ -498,6 +601,12 @@ func c15check(sc c15scn) func(x *mcrt.Exec) (string, string, string) {
 	}
 }
 
+// c15idleOnly: at least one idle keep-alive connection is open and no other connection is
+func c15idleOnly(o *c15obs) bool {
+	idle, busy := c15idleConns(o)
+	return len(idle) > 0 && busy == 0
+}
+
 func c15first(s string, n int) string {
 	l := strings.Split(s, "\n")
 	if len(l) > n {
@@ -509,9 +618,9 @@ func c15first(s string, n int) string {
 func TestVerif_C15(t *testing.T) {
 	r := vrt.Begin(t, "C15", "model_checking")
 	defer r.End()
-	r.Rule("real Server.Serve on an InmemoryListener with 1-2 scripted client connections (idle keep-alive; slow handler waiting for ctx.Done(); pipelined pair; request sent on an idle connection while Shutdown runs) and a thread calling ShutdownWithContext (background / deadline context), MaxConnsPerIP 0/1, also on a Server that already went through one complete Serve/Shutdown cycle; " +
-		"all schedules, select choices and timer-first orders up to the deviation bound; oracle when Shutdown returns nil: Serve returned, no handler running, Dial fails, every request whose handler started has its complete 200 response on its connection, every connection was closed by the server (idle ones without waiting), a handler blocked on Done() is woken; non-trivial: executions with >=1 deviation")
-	r.Assume("mcrt shim semantics (litmus-tested)", "sync.Pool modelled as deterministic LIFO")
+	r.Rule("real Server.Serve on an InmemoryListener with 1-2 scripted client connections (idle keep-alive; slow handler waiting for ctx.Done(); pipelined pair; request sent on an idle connection while Shutdown runs; requests answered through a swapped RequestCtx - ctx.TimeoutError, and TimeoutHandler(50ms) abandoning a 300ms inner handler - as the only, the last, the first of two, a pipelined or the in-flight request, so that connections idle after a timeout response are among the idle ones) and a thread calling ShutdownWithContext (background / deadline context), MaxConnsPerIP 0/1, also on a Server that already went through one complete Serve/Shutdown cycle; " +
+		"all schedules, select choices and timer-first orders up to the deviation bound; oracle when Shutdown returns nil: Serve returned, no handler running, Dial fails, every request whose handler started has its complete 200 response on its connection, every connection was closed by the server (idle ones without waiting), a handler blocked on Done() is woken (an abandoned TimeoutHandler inner handler is exempt from 'no handler running'); whatever Shutdown returns: it must not keep polling for ever, nor run into a >=1s deadline (deviation-free executions), while no handler runs and only idle keep-alive connections (all requests answered, client silent) are open; non-trivial: executions with >=1 deviation")
+	r.Assume("mcrt shim semantics (litmus-tested)", "sync.Pool modelled as deterministic LIFO", "the process-wide Date refresher goroutine (1s sleep loop behind serverDateOnce) is not started: the harness consumes the Once with one refreshServerDate call")
 	b := vrt.Pick(r, 1, 2)
 	forced := false
 	if v := os.Getenv("C15_BOUND"); v != "" {
@@ -527,6 +636,12 @@ func TestVerif_C15(t *testing.T) {
 	pipe := []c15step{W("/slow1", "/b2"), E}
 	late := []c15step{W("/a1"), R(1), S, W("/nap2"), E}
 	fresh := []c15step{S, W("/nap1"), E} // connection accepted before Shutdown, first request sent while it runs
+	// histories whose response(s) leave through a swapped RequestCtx (ctx.TimeoutError / TimeoutHandler)
+	afterTE := []c15step{W("/te1"), R(1), E}
+	afterTH := []c15step{W("/th1"), R(1), E}
+	plainTE := []c15step{W("/a1"), R(1), W("/te2"), R(2), E}
+	tePlain := []c15step{W("/te1"), R(1), W("/a2"), R(2), E}
+	lateTE := []c15step{W("/te1"), R(1), S, W("/nap2"), E}
 	one := func(x []c15step) [][]c15step { return [][]c15step{x} }
 	var list []c15scn
 	for _, perIP := range []int{0, 1} {
@@ -540,8 +655,17 @@ func TestVerif_C15(t *testing.T) {
 			c15scn{name: pn + "pipelined/bg", perIP: perIP, scripts: one(pipe), trigger: "started:/slow1"},
 			c15scn{size: 'M', name: pn + "late-request/bg", perIP: perIP, scripts: one(late), trigger: "resp:0:1"},
 			c15scn{size: 'L', name: pn + "idle+slow/bg", perIP: perIP, scripts: [][]c15step{idle, slow}, trigger: "started:/slow1"},
+			c15scn{size: 'M', name: pn + "idle-after-timeout-error/bg", perIP: perIP, scripts: one(afterTE), trigger: "resp:0:1"},
 		)
 	}
+	list = append(list,
+		c15scn{size: 'M', name: "perip0/idle-after-timeout-error/ctx1s", scripts: one(afterTE), trigger: "resp:0:1", ctxTimeout: time.Second},
+		c15scn{size: 'M', name: "perip0/idle-after-plain-then-timeout-error/bg", scripts: one(plainTE), trigger: "resp:0:2"},
+		c15scn{size: 'M', name: "perip0/idle-after-timeouthandler/bg", scripts: one(afterTH), trigger: "resp:0:1"},
+		c15scn{size: 'M', name: "perip0/timeouthandler-waiting/bg", scripts: one([]c15step{W("/th1"), E}), trigger: "started:/th1"},
+		c15scn{name: "perip0/pipelined-timeout-error/bg", scripts: one([]c15step{W("/te1", "/b2"), E}), trigger: "started:/te1"},
+		c15scn{size: 'M', name: "perip0/late-request-after-timeout-error/bg", scripts: one(lateTE), trigger: "resp:0:1"},
+	)
 	list = append(list,
 		c15scn{name: "perip0/pipelined/bg/close-on-shutdown", scripts: one(pipe), trigger: "started:/slow1", closeOnSD: true},
 		c15scn{size: 'M', name: "perip0/late-request/bg/wcap0", scripts: one(late), trigger: "resp:0:1", wcap0: true},
@@ -558,6 +682,11 @@ func TestVerif_C15(t *testing.T) {
 	if r.Thorough() {
 		list = append(list,
 			c15scn{size: 'M', twoCycles: true, name: "second-cycle/perip1/idle/bg", perIP: 1, scripts: one(idle), trigger: "resp:0:1"},
+			c15scn{size: 'M', name: "perip0/idle-after-timeout-error-then-plain/bg", scripts: one(tePlain), trigger: "resp:0:2"},
+			c15scn{size: 'M', name: "perip1/idle-after-timeouthandler/ctx1s", perIP: 1, scripts: one(afterTH), trigger: "resp:0:1", ctxTimeout: time.Second},
+			c15scn{size: 'M', name: "perip1/idle-after-timeout-error-idletimeout/ctx1s", perIP: 1, scripts: one(afterTE), trigger: "resp:0:1", ctxTimeout: time.Second, idleTO: 30 * time.Second},
+			c15scn{size: 'M', twoCycles: true, name: "second-cycle/perip0/idle-after-timeout-error/bg", scripts: one(afterTE), trigger: "resp:0:1"},
+			c15scn{size: 'L', name: "perip0/idle+idle-after-timeout-error/bg", scripts: [][]c15step{idle, {W("/te2"), R(1), E}}, trigger: "resp:1:1"},
 			c15scn{size: 'L', name: "perip0/slow+pipelined/bg", scripts: [][]c15step{{W("/slow0"), E}, {W("/slow1", "/b2"), E}}, trigger: "started:/slow1"},
 			c15scn{size: 'L', name: "perip1/idle+pipelined/ctx1s", perIP: 1, scripts: [][]c15step{idle, pipe}, trigger: "started:/slow1", ctxTimeout: time.Second},
 		)
